@@ -38,7 +38,22 @@ def run(ctx):
 
     def gen(rng, i):
         # weights tied within and across subgraphs (incl. one NAME used in two subgraphs, which the library must refuse) every tenth case
-        return fp.gen_tied_case(rng, i) if i % 10 == 3 else fp.gen_case(rng, i)
+        if i % 20 == 13:
+            from .. import gen_models as gm
+            mb, info = gm.gen_twin_signatures(rng)
+            data = gm.random_inputs(mb, rng, n=1)
+            cfg = pl.UNIFORM[rng.choice(["drq8", "wo8", "drq4", "a8w8", "a16w8"])]
+            cmds = [{"k": "add", "regex": ".*", "operation": rng.choice(["*", "FULLY_CONNECTED"]), "cfg": cfg, "alg": "min_max_uniform_quantize"}]
+            return fp.Case(mb, info, cmds=cmds, data=data, desc=[("twin signatures, one weight name", cfg["weight"]["bits"], cfg["cp"])])
+        if i % 10 != 3:
+            return fp.gen_case(rng, i)
+        case = fp.gen_tied_case(rng, i, nsg=2 if i % 20 == 3 else None)
+        if "tied_same_name_across_subgraphs" in case.info["tags"] and rng.random() < 0.7:
+            # every reader gets the same request, so nothing but the duplicate NAME stands between the model and quantization
+            cfg = pl.UNIFORM[rng.choice(["drq8", "wo8", "drq4", "a8w8"])]
+            case.cmds, case.recipe = [{"k": "add", "regex": ".*", "operation": rng.choice(["*", "FULLY_CONNECTED"]), "cfg": cfg, "alg": "min_max_uniform_quantize"}], None
+            case.desc = [("uniform on same-name tie", cfg["weight"]["bits"], cfg["cp"])]
+        return case
     # graph stage (instructions + performer on abstract parameter classes) AND the whole pipeline (bit-exact output, WF.modelOK /
     # skeleton evaluated on the model's own output, NF membership) are compared with the Lean model on every case
     fp.explore(ctx, drv, 600 if ctx.tier == "quick" else 4000, per_case, gen=gen, graph_corr=True, pipe_corr=True)
